@@ -2,16 +2,17 @@
 """keep_seeded.py <Cxx> [extra checks...]: confirm every patch*.diff in /tmp/wt/<Cxx>_out, run the checks, store under seeded/."""
 import json, os, shutil, subprocess, sys
 P = sys.argv[1]
-extra = sys.argv[2:]
+extra = [a for a in sys.argv[2:] if not a.startswith("--")]
+ROUND2 = "--r2" in sys.argv   # round 2: /tmp/wt/R2<Cxx>_out, stored as <Cxx>-c / <Cxx>-d
 VERIF = os.path.dirname(os.path.dirname(os.path.abspath(__file__)))
-src = f"/tmp/wt/{P}_out"
+src = f"/tmp/wt/{'R2' if ROUND2 else ''}{P}_out"
 for suffix in ("", "2"):
     patch = f"{src}/patch{suffix}.diff"
     demo = f"{src}/demo{suffix}.py"
     meta = f"{src}/meta{suffix}.json"
     if not (os.path.exists(patch) and os.path.exists(demo)):
         continue
-    name = f"{P}-{'a' if suffix == '' else 'b'}"
+    name = f"{P}-{('c' if suffix == '' else 'd') if ROUND2 else ('a' if suffix == '' else 'b')}"
     out = subprocess.run([f"{VERIF}/tools/try_seeded.py", patch, demo, P] + extra, stdout=subprocess.PIPE, stderr=subprocess.STDOUT, text=True).stdout
     try:
         res = json.loads(out[out.index("{"):])
